@@ -650,7 +650,7 @@ where
 		height,
 		parent_key_id,
 	)?;
-	clean_old_unconfirmed(wallet, keychain_mask, height)?;
+	clean_old_unconfirmed(wallet, keychain_mask, parent_key_id, height)?;
 	Ok(())
 }
 
@@ -704,6 +704,7 @@ where
 fn clean_old_unconfirmed<'a, T: ?Sized, C, K>(
 	wallet: &mut T,
 	keychain_mask: Option<&SecretKey>,
+	parent_key_id: &Identifier,
 	height: u64,
 ) -> Result<(), Error>
 where
@@ -716,7 +717,10 @@ where
 	}
 	let mut ids_to_del = vec![];
 	for out in wallet.iter() {
-		if out.status == OutputStatus::Unconfirmed
+		// (only the account just refreshed: another account's candidates have not been
+		// checked against the node, some of them may be mined)
+		if out.root_key_id == *parent_key_id
+			&& out.status == OutputStatus::Unconfirmed
 			&& out.height > 0
 			&& out.height < height - 50
 			&& out.is_coinbase
